@@ -203,6 +203,36 @@ func compactStep(c stepCase) any {
 	return map[string]any{"cfg": c.Cfg, "pc": c.PC, "steps": c.Steps, "nonzero_cells": cells}
 }
 
+// genLongCase: a small SPL-rich core run for hundreds of single-task cycles with a
+// process limit well above the small constants, so that the task queue grows,
+// wraps around and hits its limit many times.
+func genLongCase(t *rapid.T) stepCase {
+	var c stepCase
+	m := rapid.IntRange(5, 24).Draw(t, "M")
+	c.Cfg = simCfg{M: m, R: m, W: m, P: rapid.SampledFrom([]int{5, 16, 17, 31, 32, 33, 40, 64, 65, 100, 1000}).Draw(t, "P"), Mode: rapid.IntRange(0, 2).Draw(t, "mode")}
+	if rapid.IntRange(0, 3).Draw(t, "lim") == 0 {
+		c.Cfg.R = gen.Limit(m).Draw(t, "R")
+		c.Cfg.W = gen.Limit(m).Draw(t, "W")
+	}
+	c.Steps = rapid.IntRange(40, 400).Draw(t, "steps")
+	c.Cfg.Cycles = c.Steps
+	c.PC = rapid.IntRange(0, m-1).Draw(t, "pc")
+	c.Core = make([]ref.Instr, m)
+	for i := range c.Core {
+		switch rapid.IntRange(0, 5).Draw(t, "k") {
+		case 0, 1:
+			c.Core[i] = ref.Instr{Op: ref.SPL, Mod: ref.MB, A: gen.Field(m).Draw(t, "a"), B: gen.Field(m).Draw(t, "b")}
+		case 2:
+			c.Core[i] = ref.Instr{Op: ref.JMP, Mod: ref.MB, A: gen.Field(m).Draw(t, "a")}
+		case 3:
+			c.Core[i] = ref.Instr{Op: ref.NOP, Mod: ref.MB}
+		default:
+			c.Core[i] = gen.Instr(m).Draw(t, "cell")
+		}
+	}
+	return c
+}
+
 const c01Rule = "rapid draws core size, read/write/process limits, every cell of the core (any of the 7616 forms, fields in [0,M)), a program counter and 1..6 single-task cycles; gmars (whole core loaded as one warrior, RunCycle) is compared cell-for-cell and queue-for-queue with the independent ICWS'94 reference step after every cycle. Non-trivial: some executed instruction is not `DAT #,#` or had an operand side effect; distinct by FNV hash of (config, pc, steps, core)."
 
 func TestC01(t *testing.T) {
@@ -217,6 +247,12 @@ func TestC01(t *testing.T) {
 		return
 	}
 	_ = rec
+	hx.Run(t, hx.Prop[stepCase]{
+		ID: "C01", Sub: "longrun", Checks: hx.Scale(1500, 400000),
+		Rule: "the same oracle over long runs: SPL/JMP-rich cores of 5..24 cells executed for 40..400 single-task cycles with process limits 5..1000 (queue grows, wraps and saturates repeatedly); core and queue compared after every cycle. Non-trivial and distinct as above.",
+		Gen:   genLongCase,
+		Judge: func(c stepCase, rec *hx.Rec) string { return judgeStepCase(c, rec, nil) },
+	})
 	// stratified top-up: every one of the 7616 forms executed at least k times
 	k := int32(3)
 	if hx.Thorough() {
